@@ -392,7 +392,14 @@ pub fn decode_fixlen_items<P, D: ParameterizedDecode<P>>(
     let mut sub = Cursor::new(&bytes.get_ref()[initial_position..items_end]);
 
     while sub.position() < length as u64 {
+        let position = sub.position();
         decoded.push(D::decode_with_param(decoding_parameter, &mut sub)?);
+        // An item that consumes no input (e.g. `()`) would never reach the end of the vector.
+        if sub.position() == position {
+            return Err(CodecError::Other(
+                "zero-length items cannot fill a vector of non-zero length".into(),
+            ));
+        }
     }
 
     // Advance outer cursor by the amount read in the inner cursor
